@@ -9,7 +9,10 @@ stream — every sequence of reads answers exactly what the string-reader model 
 Tie to /repo (this file): the extracted stream-reader model (ml/mpstream_driver.ml; every case is run on the
 in-memory reader and on the chunked reader model with K = 8 and K = 256, which must agree) against the real
 CMsgPackStreamReader (harness/drv_msgpack.cpp kind `s`), built with chunk_size 256 and, through the hook
--DBITSERIALIZER_VERIF_CHUNK_SIZE=8, with chunk_size 8, on the same case lines.  Every stream answer is also
+-DBITSERIALIZER_VERIF_CHUNK_SIZE=8, with chunk_size 8, on the same case lines.  All cases are run as `p` lines:
+an ERR answer carries the reader position after the throw, which the model must reproduce too (the position
+is NOT compared with the string reader's: it differs in the class of T_C10mp_skip_throw_related; those cases
+are counted in `classes`).  Every stream answer is also
 compared with the real CMsgPackStringReader on the same document (kind `m`): a difference there is a failure
 of the property itself.
 
@@ -28,7 +31,7 @@ ASSUMPTIONS = [
     "seekable stream (std::stringstream / std::ifstream): on a stream without seek support SetPosition outside the cached window is refused (known finding F16b), which SkipValue of a long value and the seek back of ReadExtFamilyType need",
     "chunk_size >= 8 (it is 256; the test hook uses 8): GetValue<uint64_t> asks ReadSolidBlock for 8 contiguous bytes; refuted below 8 by T_C10mp_stream_equals_memory_anychunk_refuted",
     "input bytes are < 256, the document is shorter than 2^63 bytes, SetPosition is only called with positions inside the document (beyond the end the string reader throws std::invalid_argument and the stream reader returns normally: T_C10mp_stream_equals_memory_anysetpos_refuted)",
-    "not modelled: the Offset field / text of the exceptions and the reader position after an exception (they differ between the two readers, see the report), mBuffer.reserve(remainingSize) of ReadValue(string_view) (assumed to succeed)",
+    "not modelled: the Offset field / text of the exceptions, mBuffer.reserve of ReadValue(string_view); the reader position after an exception is the final state of the model's run and is compared with the real stream reader on every case (p lines); it differs from the string reader's in the class of T_C10mp_skip_throw_related (same error class)",
 ]
 
 SEQ_OPS = ["int:s64", "int:u8", "int:u32", "int:u1", "str", "nil", "f64", "f32", "arr", "map", "bin", "ts", "skip", "type", "byte"]
@@ -111,8 +114,28 @@ def chunk8_cases(rng, tier):
     return cases
 
 
+def to_p(line):
+    """every case as a `p` line of harness/drv_msgpack.cpp: a sequence whose ERR answer carries the reader position after the throw"""
+    t = line.split(" ")
+    if t[0] == "r":
+        op = t[3] + (":" + t[4] if len(t) > 5 else "")
+        return "p %s %s %s %s" % (t[1], t[2], op, t[-1])
+    if t[0] == "q":
+        return "p " + " ".join(t[1:])
+    return line
+
+
 def to_mem(line):
     return line.replace(" s ", " m ", 1)
+
+
+def strip_pos(ans):
+    """drop the position behind ERR <cat>"""
+    parts = ans.split(";")
+    f = parts[-1].split(" ")
+    if f[0] == "ERR" and len(f) == 3:
+        parts[-1] = " ".join(f[:2])
+    return ";".join(parts)
 
 
 def data_len(line):
@@ -136,10 +159,10 @@ def run_mpstream(ctx, vlib):
     corpus = []
     try:
         import utf_common as U
-        corpus = [c for c in U.load_corpus("C10mp") if c.split(" ")[0] in ("r", "q")]
+        corpus = [c for c in U.load_corpus("C10mp") if c.split(" ")[0] in ("r", "q", "p")]
     except Exception:
         corpus = []
-    stream = corpus + small + base
+    stream = [to_p(c) for c in corpus + small + base]
     om = vlib.run_driver(model, stream)
     a_mem = vlib.run_driver(impls[256], [to_mem(c) for c in stream])
 
@@ -148,12 +171,13 @@ def run_mpstream(ctx, vlib):
     evals = len(stream) * 2
     seen = set()
     nontriv = 0
+    throw_pos_differs, throw_pos_samples = 0, []
     for k, impl in sorted(impls.items()):
         a_str = vlib.run_driver(impl, stream)
         evals += len(stream)
         for i, line in enumerate(stream):
             t = line.split(" ")
-            key = "mpstream K=%d %s" % (k, "sequence" if t[0] == "q" else "single %s" % t[3])
+            key = "mpstream K=%d %s" % (k, "sequence" if "," in t[3] else "single %s" % t[3].split(":")[0])
             classes[key] = classes.get(key, 0) + 1
             if (line, k) not in seen:
                 seen.add((line, k))
@@ -162,20 +186,29 @@ def run_mpstream(ctx, vlib):
             a, m, ref = a_str[i], om[i], a_mem[i]
             if a == m and a == ref:
                 continue
-            if a != ref:
+            if strip_pos(a) != strip_pos(ref):
+                # the property itself: value / not-loaded / error class / position of every answer
                 rec = dict(driver="mpstream", case=line, chunk=k, implementation=a, memory_reader=ref, model=m, judge="FAIL",
                            why="CMsgPackStreamReader (chunk %d) answers %s, CMsgPackStringReader answers %s on the same document"
                                % (k, a[:120], ref[:120]))
                 if len(failing) < 20:
                     failing.append(rec)
-            else:
+            elif a != m:
                 rec = dict(driver="mpstream", case=line, chunk=k, implementation=a, memory_reader=ref, model=m,
                            judge="MODEL-SPLIT" if m.startswith("MODEL-SPLIT") else "DIFF",
-                           why="the stream-reader model disagrees with both real readers (which agree with each other)"
+                           why=("the stream-reader model disagrees with the real stream reader (value / class / position of an answer, or the "
+                                "reader position after the throw); the real string reader gives the same answers up to that position")
                                if not m.startswith("MODEL-SPLIT") else
                                "the stream-reader model gives different answers on the in-memory reader and the chunked reader models: contradicts T_C10mp_stream_equals_memory")
                 if len(diffs) < 20:
                     diffs.append(rec)
+            else:
+                # same answers, model and stream reader agree also on the position after the throw; the string reader
+                # stands elsewhere after its throw: the class of T_C10mp_skip_throw_related (report, finding 1)
+                throw_pos_differs += 1
+                if len(throw_pos_samples) < 3:
+                    throw_pos_samples.append(dict(case=line, chunk=k, stream_reader=a, memory_reader=ref))
+    classes["mpstream: reader position after the throw differs between the stream and the string reader (same error class)"] = throw_pos_differs
 
     known_lines = []
     kn = [x for x in vlib.load_known("C10") if x.get("status") == "known" and x.get("driver") == "mpstream"]
@@ -192,8 +225,8 @@ def run_mpstream(ctx, vlib):
         failing = [f for f in failing if f["case"] not in kc]
     samples = [dict(case=stream[i][:300], implementation=a_mem[i][:300], model=om[i][:300]) for i in (0, len(stream) // 2, len(stream) - 1)]
     return dict(evaluations=evals, distinct_nontrivial=nontriv, failing=failing, diffs=diffs, classes=classes, known_lines=known_lines,
-                samples=samples, hook=hook, chunk_sizes=sorted(impls),
-                rule="extracted CMsgPackStreamReader model (run on the in-memory reader and on the chunked reader model, K = 8 and 256) vs the real stream reader built with chunk_size 256 and 8 vs the real string reader, same case lines: one value of every format family and width behind a leading fixstr of every length 0..9 (0..17 thorough) so that every header / length field / ext type byte / payload lies on every alignment of an 8-byte chunk, read by the matching op, skip, type and a random op under both policies; every truncation of those; random documents x random op sequences with truncations and corruptions; strings / binaries / arrays of 7..100 units read through ReadByChunks and element-wise; plus the generators of C07/C10 (every first byte x tails x every op, documents shifted across the 256-byte boundary); non-trivial = distinct (case, K) whose document is longer than one chunk or that seeks (skip / ts / type)",
+                samples=samples, hook=hook, chunk_sizes=sorted(impls), throw_position_differs=throw_pos_differs, throw_position_samples=throw_pos_samples,
+                rule="extracted CMsgPackStreamReader model (run on the in-memory reader and on the chunked reader model, K = 8 and 256) vs the real stream reader built with chunk_size 256 and 8 (answers AND the reader position after a throw) vs the real string reader (answers), same case lines: one value of every format family and width behind a leading fixstr of every length 0..9 (0..17 thorough) so that every header / length field / ext type byte / payload lies on every alignment of an 8-byte chunk, read by the matching op, skip, type and a random op under both policies; every truncation of those; random documents x random op sequences with truncations and corruptions; strings / binaries / arrays of 7..100 units read through ReadByChunks and element-wise; plus the generators of C07/C10 (every first byte x tails x every op, documents shifted across the 256-byte boundary); non-trivial = distinct (case, K) whose document is longer than one chunk or that seeks (skip / ts / type)",
                 broken="correspondence MsgPack stream-reader model (coq/MpStreamModel.v) vs CMsgPackStreamReader (drv_msgpack kind s)")
 
 
@@ -206,7 +239,7 @@ def replay_mpstream(rp, vlib):
         impl = vlib.build_cpp("drv_msgpack", srcs)
     impl_mem = vlib.build_cpp("drv_msgpack", srcs)
     model = vlib.build_model("mpstream")
-    line = rp["case"]
+    line = to_p(rp["case"])
     return dict(case=line, chunk=k, implementation=vlib.run_driver(impl, [line], jobs=1)[0],
                 memory_reader=vlib.run_driver(impl_mem, [to_mem(line)], jobs=1)[0],
                 model=vlib.run_driver(model, [line], jobs=1)[0])
